@@ -6,8 +6,9 @@
    hypothesis on the procedure beyond in-range indices): what sortf does on
    the table through Index/SetIndex is exactly the abstract run on the list
    t[1..n].  [sort_sorted_if_consistent]: if the procedure sorts every list
-   for every consistent comparison (Section hypothesis [algo_sorts]; Go's
-   pdqsort is not verified here), the table ends up sorted. *)
+   of length n for every consistent comparison (Section hypothesis
+   [algo_sorts]; Go's pdqsort is not verified here), the table ends up sorted.
+   SortExample.v shows the hypothesis is satisfiable (bubble sort, n = 2, 3). *)
 From Coq Require Import ZArith List Bool Lia Permutation.
 From GV Require Import StrLib.Str StrLib.StrSpec StrLib.Tab StrLib.Sort.
 Import ListNotations.
@@ -91,16 +92,17 @@ Qed.
 
 Section GoSortCorrect.
   Variable algo : nat -> strat.
-  Hypothesis algo_in_range : forall n, in_range n (algo n).
-  (* sort.Sort is a correct comparison sort *)
-  Hypothesis algo_sorts : forall lt l, consistent lt -> sorted lt (run_list (algo (length l)) lt l).
+  Variable n : nat.
+  Hypothesis algo_in_range : in_range n (algo n).
+  (* sort.Sort is a correct comparison sort on inputs of this length *)
+  Hypothesis algo_sorts : forall lt l, length l = n -> consistent lt -> sorted lt (run_list (algo n) lt l).
 
-  Theorem sort_sorted_if_consistent n lt m :
+  Theorem sort_sorted_if_consistent lt m :
     consistent lt ->
     sorted lt (elems (fst (sort_im algo n (fun _ x y => Some (lt x y)) m)) n).
   Proof.
     intros Hc. unfold sort_im. rewrite sort_refines_list by apply algo_in_range.
-    replace n with (length (elems m n)) at 1 by (unfold elems; rewrite map_length; clear; generalize 1; induction n; intros; cbn; auto).
-    apply algo_sorts. exact Hc.
+    apply algo_sorts; [|exact Hc].
+    unfold elems. rewrite map_length. clear. generalize 1. induction n; intros; cbn; auto.
   Qed.
 End GoSortCorrect.
